@@ -264,6 +264,8 @@ class Kernel(object):
         self._seam("send:" + pipe.name, crc32(blob), cond=lambda: len(pipe.q) < pipe.capacity)
         pipe.q.append(blob)
         pipe.sent += 1
+        if getattr(pipe, "tap", None) is not None:
+            pipe.tap(blob)
 
     def seam_pipe_recv(self, pipe):
         self._seam("recv:" + pipe.name, None, cond=lambda: bool(pipe.q))
